@@ -6,7 +6,7 @@ import ast
 from sa.cfg import CFG
 from sa.expr import cmp_atom, edges_where, resolve, single_defs
 from sa.loader import Program, dotted, norm, own_nodes
-from sa.util import kwarg, parent_map, self_attr, where, ancestors, field_accesses
+from sa.util import kwarg, parent_map, self_attr, where, ancestors, field_accesses, init_fields, lock_kind
 
 PROPERTY = "C08"
 CMOD = "optuna.storages._cached_storage"
@@ -145,6 +145,35 @@ def check_cache_class(ctx, cls, label, fetch_floor):
                               f"greater_than={norm(gt) if gt is not None else None})",
                       how="both fields of one entry passed unchanged", where=where(f, c))
     ctx.floor("R08.1", f"fetch_sites[{label}]", n_fetch, fetch_floor)
+    # ---- R08.1c: the fetch, and every update of the entry that follows from it, run while the cache lock is held - in one section.
+    # Two threads of one client otherwise merge their answers in an order unrelated to the order the backend produced them:
+    # the older RUNNING answer lands after the newer COMPLETE one, untracked and below the watermark - stale for ever.
+    from sa.locks import ClassLockInfo
+    lock_field = next((k for k, v in init_fields(cls).items() if lock_kind(v)), None)
+    ctx.require(lock_field is not None, f"R08.1: {cls.name} has no lock field")
+    info = ClassLockInfo(p, cls, lock_field)
+    for mname, f in sorted(cls.methods.items()):
+        fetches = [c for c, _, _ in fx.fetch_calls(f)]
+        if not fetches:
+            continue
+        g = CFG(f.node, name=f.qualname)
+        upd = [n.ast for n, _ in _attr_store_nodes(g, WM)]
+        upd += [c for c in own_nodes(f.node) if isinstance(c, ast.Call) and isinstance(c.func, ast.Attribute) and c.func.attr in ("add", "remove", "discard")
+                and isinstance(c.func.value, ast.Attribute) and c.func.value.attr == UNF]
+        pm = parent_map(f.node)
+
+        def section(n):
+            for a in ancestors(n, pm):
+                if isinstance(a, ast.With) and any(self_attr(i.context_expr) == lock_field for i in a.items):
+                    return a
+            return None
+        for c in fetches:
+            ok = info.is_held(mname, c) and all(info.is_held(mname, u) and section(u) is section(c) for u in upd)
+            ctx.check(ok, "R08.1", f.short, "fetch-and-update-under-one-lock-section",
+                      message=f"{cls.name}.{mname}: the incremental fetch and the updates of watermark / unfinished set it leads to do not run inside one "
+                              f"held section of self.{lock_field} (a caller reaches it without the lock, or the answer is merged in a later section): two threads "
+                              f"of one client can merge an older answer after a newer one - the trial is cached RUNNING below the watermark and never fetched again",
+                      how="fetch and updates lexically in one `with <lock>` block, or in a helper all of whose call sites hold the lock", where=where(f, c))
     # ---- R08.1: every watermark store takes max(old, <fetched element>._trial_id)
     n_store = 0
     for mname, f in sorted(cls.methods.items()):
